@@ -46,8 +46,10 @@ def real_of_float(c):
 
 
 def lift_scalar(v):
-    if isinstance(v, T):
+    if isinstance(v, (T, NV)):
         return v
+    if isinstance(v, (float, onp.floating)) and v != v:
+        return NV(tm.ZERO, tm.TRUE, tm.FALSE)
     if isinstance(v, (bool, onp.bool_)):
         return tm.TRUE if bool(v) else tm.FALSE
     if isinstance(v, (int, onp.integer)):
@@ -75,7 +77,7 @@ def to_obj(x):
     else:
         xs = x.reshape(-1)
         for i in range(xs.size):
-            flat[i] = lift_scalar(xs[i].item() if not isinstance(xs[i], T) else xs[i])
+            flat[i] = lift_scalar(xs[i].item() if not isinstance(xs[i], (T, NV)) else xs[i])
     return out
 
 
@@ -95,6 +97,95 @@ def sym_symmetric(name, n=3):
         for j in range(i, n):
             out[i, j] = out[j, i] = tm.var('%s_%d_%d' % (name, i, j))
     return out
+
+
+
+class NV:
+    """NaN-aware real (DESIGN §2.2 NaN-aware mode): value term, definitely-NaN flag,
+    undefined flag (x/0, sqrt(neg), log(<=0): inf or NaN, not tracked further)."""
+    __slots__ = ('v', 'nan', 'undef')
+    sort = REAL
+
+    def __init__(self, v, nan=tm.FALSE, undef=tm.FALSE):
+        self.v, self.nan, self.undef = v, tm.lift(nan), tm.lift(undef)
+
+    def bad(self):
+        return tm.or_(self.nan, self.undef)
+
+    def __repr__(self):
+        return 'NV(%s, nan=%s, undef=%s)' % (tm.show(self.v, 80), tm.show(self.nan, 60), tm.show(self.undef, 60))
+
+
+NAN_MODE = [False]
+_nd_counter = [0]
+
+
+def nv(x):
+    if isinstance(x, NV):
+        return x
+    return NV(tm.to_real(x) if isinstance(x, T) and x.sort != BOOL else x)
+
+
+def _collapse(x):
+    if isinstance(x, NV) and x.nan is tm.FALSE and x.undef is tm.FALSE and not NAN_MODE[0]:
+        return x.v
+    return x
+
+
+def _nondet():
+    _nd_counter[0] += 1
+    return tm.var('nondet!%d' % _nd_counter[0], BOOL)
+
+
+_ARITH_DOMAIN = {
+    'div': lambda a: tm.eq(a[1], tm.ZERO),
+    'sqrt': lambda a: tm.lt(a[0], tm.ZERO),
+    'rsqrt': lambda a: tm.le(a[0], tm.ZERO),
+    'log': lambda a: tm.le(a[0], tm.ZERO),
+    'log1p': lambda a: tm.le(a[0], tm.const(-1)),
+    'acos': lambda a: tm.or_(tm.lt(a[0], tm.const(-1)), tm.lt(tm.ONE, a[0])),
+}
+_CMP = {'lt', 'le', 'gt', 'ge', 'eq', 'ne'}
+
+
+def _nv_apply(name, base, args):
+    """lift the plain semantic function ``base`` of primitive ``name`` to NaN-aware values"""
+    anynv = any(isinstance(a, NV) for a in args)
+    if not anynv and not (NAN_MODE[0] and name in _ARITH_DOMAIN):
+        return base(*args)
+    if name in ('and', 'or', 'not', 'is_finite'):
+        if name == 'is_finite':
+            a = nv(args[0])
+            return tm.not_(a.bad())
+        return base(*args)
+    vs = [nv(a) for a in args]
+    nan = tm.or_(*[a.nan for a in vs])
+    undef = tm.or_(*[a.undef for a in vs])
+    plain = [a.v for a in vs]
+    if name in _CMP:
+        r = base(*plain)
+        if undef is not tm.FALSE:
+            r = tm.ite(undef, _nondet(), r)
+        if name == 'ne':
+            return tm.or_(nan, r)
+        return tm.and_(tm.not_(nan), r)
+    r = base(*plain)
+    if name in _ARITH_DOMAIN:
+        undef = tm.or_(undef, _ARITH_DOMAIN[name](plain))
+    return _collapse_flags(NV(r, nan, undef))
+
+
+def _collapse_flags(x):
+    if x.nan is tm.FALSE and x.undef is tm.FALSE:
+        return x.v
+    return x
+
+
+def nv_ite(c, a, b):
+    if not (isinstance(a, NV) or isinstance(b, NV)):
+        return tm.ite(c, a, b)
+    a, b = nv(a), nv(b)
+    return _collapse_flags(NV(tm.ite(c, a.v, b.v), tm.ite(c, a.nan, b.nan), tm.ite(c, a.undef, b.undef)))
 
 
 def _vec(f, nin):
@@ -117,39 +208,49 @@ def _cmp(f):
 
 _num = lambda x: tm._num(x)
 
-ELEMENTWISE = {
-    'add': _vec(lambda a, b: tm.add(_num(a), _num(b)), 2),
-    'add_any': _vec(lambda a, b: tm.add(_num(a), _num(b)), 2),
-    'sub': _vec(lambda a, b: tm.sub(_num(a), _num(b)), 2),
-    'mul': _vec(lambda a, b: tm.mul(_num(a), _num(b)), 2),
-    'div': _vec(lambda a, b: tm.div(a, b), 2),
-    'max': _vec(tm.max_, 2),
-    'min': _vec(tm.min_, 2),
-    'pow': _vec(lambda a, b: a ** b, 2),
-    'lt': _cmp(tm.lt), 'le': _cmp(tm.le),
-    'gt': _cmp(lambda a, b: tm.lt(b, a)), 'ge': _cmp(lambda a, b: tm.le(b, a)),
-    'eq': _cmp(tm.eq), 'ne': _cmp(tm.ne),
-    'and': _vec(lambda a, b: tm.and_(a, b), 2),
-    'or': _vec(lambda a, b: tm.or_(a, b), 2),
-    'not': _vec(tm.not_, 1),
-    'neg': _vec(tm.neg, 1),
-    'abs': _vec(tm.abs_, 1),
-    'sign': _vec(tm.sign, 1),
-    'sqrt': _vec(tm.sqrt, 1),
-    'rsqrt': _vec(lambda a: tm.div(tm.ONE, tm.sqrt(a)), 1),
-    'exp': _vec(tm.exp, 1),
-    'log': _vec(tm.log, 1),
-    'log1p': _vec(lambda a: tm.log(tm.add(tm.ONE, a)), 1),
-    'expm1': _vec(lambda a: tm.sub(tm.exp(a), tm.ONE), 1),
-    'cos': _vec(tm.cos, 1),
-    'sin': _vec(tm.sin, 1),
-    'acos': _vec(tm.acos, 1),
-    'is_finite': _vec(lambda a: tm.TRUE, 1),
-    'stop_gradient': lambda a: a,
-    'copy': lambda a: a,
-    'copy_p': lambda a: a,
-    'real': lambda a: a,
+BASE = {
+    'add': (lambda a, b: tm.add(_num(a), _num(b)), 2),
+    'add_any': (lambda a, b: tm.add(_num(a), _num(b)), 2),
+    'sub': (lambda a, b: tm.sub(_num(a), _num(b)), 2),
+    'mul': (lambda a, b: tm.mul(_num(a), _num(b)), 2),
+    'div': (lambda a, b: tm.div(a, b), 2),
+    'max': (tm.max_, 2),
+    'min': (tm.min_, 2),
+    'pow': (lambda a, b: a ** b, 2),
+    'lt': (tm.lt, 2), 'le': (tm.le, 2),
+    'gt': (lambda a, b: tm.lt(b, a), 2), 'ge': (lambda a, b: tm.le(b, a), 2),
+    'eq': (tm.eq, 2), 'ne': (tm.ne, 2),
+    'and': (lambda a, b: tm.and_(a, b), 2),
+    'or': (lambda a, b: tm.or_(a, b), 2),
+    'not': (tm.not_, 1),
+    'neg': (tm.neg, 1),
+    'abs': (tm.abs_, 1),
+    'sign': (tm.sign, 1),
+    'sqrt': (tm.sqrt, 1),
+    'rsqrt': (lambda a: tm.div(tm.ONE, tm.sqrt(a)), 1),
+    'exp': (tm.exp, 1),
+    'log': (tm.log, 1),
+    'log1p': (lambda a: tm.log(tm.add(tm.ONE, a)), 1),
+    'expm1': (lambda a: tm.sub(tm.exp(a), tm.ONE), 1),
+    'cos': (tm.cos, 1),
+    'sin': (tm.sin, 1),
+    'acos': (tm.acos, 1),
+    'is_finite': (lambda a: tm.TRUE, 1),
 }
+
+
+def op(name, *args):
+    """scalar semantic function of primitive ``name`` (NaN-aware when operands are)"""
+    return _nv_apply(name, BASE[name][0], args)
+
+
+def _mk_elementwise(name):
+    base, n = BASE[name]
+    return _vec(lambda *a: _nv_apply(name, base, a), n)
+
+
+ELEMENTWISE = {k: _mk_elementwise(k) for k in BASE}
+ELEMENTWISE.update({'stop_gradient': lambda a: a, 'copy': lambda a: a, 'copy_p': lambda a: a, 'real': lambda a: a})
 
 STRUCTURAL = {'reshape', 'transpose', 'squeeze', 'expand_dims', 'broadcast_in_dim', 'slice',
               'dynamic_slice', 'dynamic_update_slice', 'concatenate', 'pad', 'gather', 'scatter',
@@ -247,9 +348,9 @@ def eval_eqn(eqn, ins, ctx):
         return [ELEMENTWISE[name](*ins)]
     if name == 'integer_pow':
         y = p['y']
-        return [_vec(lambda a: tm.ipow(a, y), 1)(ins[0])]
+        return [_vec(lambda a: _nv_apply('integer_pow', lambda v: tm.ipow(v, y), (a,)), 1)(ins[0])]
     if name == 'square':
-        return [_vec(lambda a: tm.mul(a, a), 1)(ins[0])]
+        return [_vec(lambda a: op('mul', a, a), 1)(ins[0])]
     if name == 'convert_element_type':
         return [_convert(ins[0], p['new_dtype'])]
     if name == 'select_n':
@@ -262,13 +363,13 @@ def eval_eqn(eqn, ins, ctx):
     if name == 'dot_general':
         return [_dot_general(ins[0], ins[1], p['dimension_numbers'])]
     if name == 'reduce_sum':
-        return [_reduce(ins[0], p['axes'], lambda a, b: tm.add(_num(a), _num(b)), tm.ZERO)]
+        return [_reduce(ins[0], p['axes'], lambda a, b: op('add', a, b), tm.ZERO)]
     if name == 'reduce_prod':
-        return [_reduce(ins[0], p['axes'], tm.mul, tm.ONE)]
+        return [_reduce(ins[0], p['axes'], lambda a, b: op('mul', a, b), tm.ONE)]
     if name == 'reduce_max':
-        return [_reduce(ins[0], p['axes'], tm.max_, None)]
+        return [_reduce(ins[0], p['axes'], lambda a, b: op('max', a, b), None)]
     if name == 'reduce_min':
-        return [_reduce(ins[0], p['axes'], tm.min_, None)]
+        return [_reduce(ins[0], p['axes'], lambda a, b: op('min', a, b), None)]
     if name == 'reduce_and':
         return [_reduce(ins[0], p['axes'], tm.and_, tm.TRUE)]
     if name == 'reduce_or':
@@ -288,7 +389,7 @@ def eval_eqn(eqn, ins, ctx):
 def _convert(x, dtype):
     dtype = onp.dtype(dtype)
     if dtype.kind == 'f':
-        return _vec(tm.to_real, 1)(x)
+        return _vec(lambda a: a if isinstance(a, NV) else tm.to_real(a), 1)(x)
     if dtype.kind in 'iu':
         return _vec(tm.to_int, 1)(x)
     if dtype.kind == 'b':
@@ -304,10 +405,10 @@ def _select_n(ins):
     def sel(pv, *cs):
         if pv.sort == BOOL:
             assert len(cs) == 2
-            return tm.ite(pv, cs[1], cs[0])
+            return nv_ite(pv, cs[1], cs[0])
         r = cs[-1]
         for k in range(len(cs) - 2, -1, -1):
-            r = tm.ite(tm.eq(pv, tm.const(k, INT)), cs[k], r)
+            r = nv_ite(tm.eq(pv, tm.const(k, INT)), cs[k], r)
         return r
     bc = onp.broadcast_arrays(pred, *cases)
     return _vec(sel, 1 + len(cases))(*bc)
@@ -376,7 +477,7 @@ def _dot_general(a, b, dn):
                 s = tm.ZERO
                 ra, rb = at[n, i], bt[n, j]
                 for k in range(nc):
-                    s = tm.add(s, tm.mul(_num(ra[k]), _num(rb[k])))
+                    s = op('add', s, op('mul', ra[k], rb[k]))
                 out[n, i, j] = s
     return out.reshape(bshape + fashape + fbshape)
 
@@ -488,7 +589,7 @@ def _cond(eqn, ins, ctx):
         acc = to_obj(live[-1][1][j])
         for g, r in reversed(live[:-1]):
             rj = to_obj(r[j])
-            acc = _vec(lambda a, b, g=g: tm.ite(g, a, b), 2)(rj, acc)
+            acc = _vec(lambda a, b, g=g: nv_ite(g, a, b), 2)(rj, acc)
         outs.append(acc)
     return outs
 
@@ -679,3 +780,80 @@ def selfcheck(session, fn, args, outs, n=20, sampler=None, seed=0, funcs=None, r
     if done == 0:
         raise CheckerError('selfcheck %s: no sample generated' % label)
     return done
+
+
+# ---------------------------------------------------------------------------
+# helper primitive: uninterpreted smooth function (DESIGN §2.2)
+# ---------------------------------------------------------------------------
+from jax.interpreters import ad, batching, mlir
+
+uf_p = jcore.Primitive('vc_uf')
+
+
+def uf(name, *xs, deriv=()):
+    """uninterpreted C^inf function ``name`` of len(xs) real arguments, applied elementwise.
+    Its JVP is sum_i  name_d<i>(xs) * t_i  (again uninterpreted), so jax.grad/jvp/hessian of
+    code that calls it trace to jaxprs over the symbols  name, name_d0, name_d0d1, ..."""
+    xs = [jnp.asarray(x, dtype=jnp.float64) for x in xs]
+    xs = jnp.broadcast_arrays(*xs)
+    return uf_p.bind(*xs, name=name, deriv=tuple(deriv))
+
+
+def _uf_abstract(*xs, name, deriv):
+    return jcore.ShapedArray(xs[0].shape, jnp.float64)
+
+
+uf_p.def_abstract_eval(_uf_abstract)
+
+
+def _uf_jvp(primals, tangents, *, name, deriv):
+    out = uf_p.bind(*primals, name=name, deriv=deriv)
+    tout = None
+    for i, t in enumerate(tangents):
+        if type(t) is ad.Zero:
+            continue
+        d = tuple(sorted(deriv + (i,)))
+        term = uf_p.bind(*primals, name=name, deriv=d) * t
+        tout = term if tout is None else tout + term
+    if tout is None:
+        tout = ad.Zero.from_value(out)
+    return out, tout
+
+
+ad.primitive_jvps[uf_p] = _uf_jvp
+batching.defbroadcasting(uf_p)
+
+
+def uf_name(name, deriv):
+    return name + ''.join('_d%d' % i for i in deriv)
+
+
+_uf_impls = {}
+
+
+def _uf_impl(*xs, name, deriv):
+    f = _uf_impls.get(uf_name(name, deriv))
+    if f is None:
+        raise NotImplementedError('vc_uf %s has no concrete implementation' % uf_name(name, deriv))
+    return f(*xs)
+
+
+uf_p.def_impl(_uf_impl)
+
+
+def _uf_eval(eqn, ins, ctx):
+    nm = uf_name(eqn.params['name'], eqn.params['deriv'])
+    n = len(ins)
+    return [_vec(lambda *a: _nv_apply('uf', lambda *v: tm.app(nm, v), a), n)(*onp.broadcast_arrays(*[to_obj(x) for x in ins]))]
+
+
+_DEFAULT_HANDLERS = {'vc_uf': _uf_eval}
+_old_ctx_init = Ctx.__init__
+
+
+def _ctx_init(self):
+    _old_ctx_init(self)
+    self.handlers.update(_DEFAULT_HANDLERS)
+
+
+Ctx.__init__ = _ctx_init
